@@ -162,7 +162,12 @@ Record cfg : Set := {
   own_mac : mac; own_ip4 : ip; own_lla : ip;
   rt_mac : mac; rt_ip4 : ip;
   lan_base : N; lan_bits : N;
-  offline_dl : Z; purge_dl : Z }.
+  offline_dl : Z; purge_dl : Z;
+  probe_dl : Z }.             (* ProbeDeadline: carried by the case configuration, read by NO step of the model
+                                (the probes purge sends are packets, not table state) *)
+Definition set_probe (p : Z) (c : cfg) : cfg :=
+  {| own_mac := own_mac c; own_ip4 := own_ip4 c; own_lla := own_lla c; rt_mac := rt_mac c; rt_ip4 := rt_ip4 c;
+     lan_base := lan_base c; lan_bits := lan_bits c; offline_dl := offline_dl c; purge_dl := purge_dl c; probe_dl := p |}.
 
 (* field setters *)
 Definition set_online (b : bool) (h : host) : host :=
